@@ -1276,6 +1276,8 @@ package res
 //@   ensures lits: forall(j, 0, rmi, imp(j < ndots(pattern, len(pattern)) + 1, pattern[startOf(pattern, j)] != '$'))
 //@   ensures lits.mounted: imp(rn.mounted && len(pattern) > 0, forall(j, 0, ndots(pattern, len(pattern)) + 1, pattern[startOf(pattern, j)] != '$'))
 //@   ensures fresh: forallge(q, nextRef(), !isnode[q])
+//@   ensures mount.kept: imp(mount != nil, isnode[ref(mount)] && nr[ref(mount)] == 0 && nlit[ref(mount)])
+//@   loop 1 invariant mount.kept: imp(mount != nil, isnode[ref(mount)] && nr[ref(mount)] == 0 && nlit[ref(mount)])
 //@   loop 1 invariant -1 <= rangeindex__1 && rangeindex__1 < len(tokens) + 0 && WF() && m.root != nil && isnode[ref(m.root)] && nr[ref(m.root)] == 0 && nlit[ref(m.root)] && pendm == old(pendm)
 //@   loop 1 invariant l != nil && isnode[ref(l)] && 0 < ref(l) && ref(l) < nextRef() && imp(mount == nil, !doMount) && imp(doMount, rangeindex__1 + 1 >= len(tokens)) && imp(mount != nil && !doMount, nlit[ref(l)])
 //@   loop 1 invariant 0 <= mountIdx && mountIdx <= rangeindex__1 + 1 && imp(mount == nil && !l.mounted, nr[ref(l)] + mountIdx == rangeindex__1 + 1)
@@ -1309,6 +1311,7 @@ package res
 //@ func callback.onRegisterCB(self ref, s *Service, p Pattern, h Handler)
 //@   modifies all
 //@   ensures WF() && isnode == old(isnode) && nr == old(nr) && nlit == old(nlit) && pendm == old(pendm) && unchanged("res.Mux.root", "res.Mux.path", "res.Mux.parent", "res.Mux.s", "res.Mux.mountp") && nextRef() >= old(nextRef())
+//@   ensures tree: treeSame() && svcSame() && tvn == old(tvn) && tvnode == old(tvnode)
 //@ func (m *Mux) registeredService() (s *Service)
 //@   requires m != nil
 //@ func (m *Mux) FullPath() (p string)
@@ -1364,38 +1367,94 @@ package res
 //@   requires forall(k, 0, len(a), !wildAt(a, k)) && r == a
 //@   ensures forall(k, 0, len(r), !wildAt(r, k))
 //@ # ---- tree walk (C08: listeners are validated at Serve by ValidateListeners, which relies on traverse handing every node
-//@ # to its callback). tvn / tvnode: the log of callback invocations made by traverse and the node given to each.
-//@ # The callbacks passed by go-res (callOnRegister, ValidateListeners) do not touch the links of the tree.
+//@ # to its callback; C06: the patterns rebuilt for OnRegister callbacks and error messages index the path within bounds).
+//@ # tvn / tvnode: the log of callback invocations made during a walk and the node given to each (the callback appends
+//@ # its node: contract traverseCB, which both closures of go-res are proved to satisfy).
 //@ ghostvar tvn int
 //@ ghostvar tvnode arr
+//@ # walk0: the allocation mark when the walk started: []string arrays older than that (the ownership lists of the service)
+//@ # are not written by the walk; the path and the error list of the walk are younger
+//@ ghostvar walk0 int
+//@ pred treeSame() = unchanged("res.node.wild", "res.node.param", "res.node.nodes", "res.node.mounted", "map:res.node.nodes", "res.node.hs", "res.node.listeners", "res.node.params", "elems:res.node.params")
+//@ pred muxSame() = isnode == old(isnode) && nr == old(nr) && nlit == old(nlit) && pendm == old(pendm) && unchanged("res.Mux.root", "res.Mux.path", "res.Mux.parent", "res.Mux.s", "res.Mux.mountp") && nextRef() >= old(nextRef())
+//@ # the settings of the service that Serve reads after validating the listeners
+//@ pred svcSame() = unchanged("res.Service.inChannelSize", "res.Service.workerCount", "res.Service.resetResources", "res.Service.resetAccess", "res.Service.Mux", "res.Service.nc", "res.Service.logger") && chclosed == old(chclosed) && walk0 == old(walk0) && strelemsbelow(walk0)
+//@ # the path handed down has one token per level below the last mount point
+//@ pred walkOK(n *node, path []string, mountIdx int) = (ref(path) == 0 || ref(path) >= walk0) && walk0 <= nextRef() && n != nil && isnode[ref(n)] && 0 <= mountIdx && mountIdx <= len(path) && (n.mounted || len(path) == mountIdx + nr[ref(n)])
 //@ func callback.traverseCB(self ref, n *node, path []string, mountIdx int)
-//@   requires n != nil
+//@   requires WF() && pendm == 0 && tvn >= 0 && walkOK(n, path, mountIdx)
 //@   modifies all
-//@   ensures tvn == old(tvn) && tvnode == old(tvnode) && unchanged("res.node.wild", "res.node.param", "res.node.nodes", "res.node.mounted")
+//@   ensures logged: tvn == old(tvn) + 1 && tvnode == store(old(tvnode), old(tvn), ref(n))
+//@   ensures kept: WF() && muxSame() && treeSame() && svcSame()
+//@ trusted func strings.Join(elems []string, sep string) (s string)
+//@   ensures true
+//@ func pathSliceToString(n *node, path []string, mountIdx int) (s string)
+//@   requires n != nil && 0 <= mountIdx && forall(k, 0, len(n.params), 0 <= n.params[k].idx && n.params[k].idx + mountIdx < len(path))
+//@   modifies alloc
+//@   loop 1 invariant -1 <= rangeindex && rangeindex < len(n.params) + 0 && len(cp) == len(path) && ref(cp) >= old(nextRef())
 //@ func traverse(n *node, path []string, mountIdx int, cb func(*node, []string, int))
-//@   requires cb != nil && tvn >= 0
+//@   requires cb != nil && tvn >= 0 && WF() && pendm == 0 && (n == nil || walkOK(n, path, mountIdx)) && (ref(path) == 0 || ref(path) >= walk0) && walk0 <= nextRef()
 //@   modifies all
 //@   callback cb traverseCB
-//@   ghost call traverseCB#1 after :: set tvnode = store(tvnode, tvn, ref(n))
-//@   ghost call traverseCB#1 after :: set tvn = tvn + 1
+//@   invokes cb
+//@   ghost entry :: use open(n)
+//@   ghost call traverseCB#1 after :: use open(n)
+//@   ghost call traverse#1 after :: use open(n)
+//@   ghost call traverse#2 after :: use open(n)
+//@   ghost loop 1 entry :: use open(n)
 //@   ensures nil: imp(n == nil, tvn == old(tvn) && tvnode == old(tvnode))
-//@   # the node itself is reported first, whatever it holds, and then the subtrees of its wildcard and placeholder children
+//@   # the node itself is reported first, whatever it holds, and then the subtrees of all its children
 //@   ensures self: imp(n != nil, tvn > old(tvn) && tvnode[old(tvn)] == ref(n))
 //@   ensures log: tvn >= old(tvn) && forall(k, 0, old(tvn), tvnode[k] == old(tvnode[k]))
-//@   ensures links: unchanged("res.node.wild", "res.node.param", "res.node.nodes", "res.node.mounted")
+//@   ensures kept: WF() && muxSame() && treeSame() && svcSame()
 //@   ensures wild: imp(n != nil && old(n.wild) != nil, exists(k, old(tvn), tvn, tvnode[k] == ref(old(n.wild))))
 //@   ensures param: imp(n != nil && old(n.param) != nil, exists(k, old(tvn), tvn, tvnode[k] == ref(old(n.param))))
-//@   loop 1 invariant unchanged("res.node.wild", "res.node.param", "res.node.nodes", "res.node.mounted")
-//@   loop 1 invariant a: cb != nil && n != nil
+//@   ensures literal: imp(n != nil, forallint(q, imp(mapHasId(old(n.nodes), q) && mapValId(old(n.nodes), q) != nil, exists(k, old(tvn), tvn, tvnode[k] == ref(mapValId(old(n.nodes), q))))))
+//@   loop 1 invariant kept: WF() && muxSame() && treeSame() && svcSame()
+//@   loop 1 invariant a: (ref(path) == 0 || ref(path) >= walk0) && walk0 <= nextRef() && cb != nil && n != nil && isnode[ref(n)] && 0 <= mountIdx && mountIdx <= len(path) && imp(!n.mounted, len(path) == mountIdx + nr[ref(n)]) && imp(n.mounted, mountIdx == len(path))
 //@   loop 1 invariant b: tvn > old(tvn)
 //@   loop 1 invariant c: tvnode[old(tvn)] == ref(n)
 //@   loop 1 invariant d: forall(k, 0, old(tvn), tvnode[k] == old(tvnode[k]))
+//@   loop 1 invariant lit: forallint(q, imp(_seen[q] && mapValId(old(n.nodes), q) != nil, exists(k, old(tvn), tvn, tvnode[k] == ref(mapValId(old(n.nodes), q)))))
 //@   loop 1 invariant imp(old(n.wild) != nil, exists(k, old(tvn), tvn, tvnode[k] == ref(old(n.wild)))) && imp(old(n.param) != nil, exists(k, old(tvn), tvn, tvnode[k] == ref(old(n.param))))
-//@ func (m *Mux) callOnRegister()
-//@   nobody
-//@   requires m != nil
+//@ # the two callbacks go-res passes to traverse: each appends its node to the log and keeps the tree (contract traverseCB)
+//@ func Mux.callOnRegister$1(n *node, path []string, mountIdx int)
+//@   requires WF() && pendm == 0 && tvn >= 0 && walkOK(n, path, mountIdx) && s != nil
 //@   modifies all
+//@   callback OnRegister onRegisterCB
+//@   ghost entry :: use open(n)
+//@   ghost entry :: set tvnode = store(tvnode, tvn, ref(n))
+//@   ghost entry :: set tvn = tvn + 1
+//@   ensures logged: tvn == old(tvn) + 1 && tvnode == store(old(tvnode), old(tvn), ref(n))
+//@   ensures kept: WF() && muxSame() && treeSame() && svcSame()
+//@ func (m *Mux) callOnRegister()
+//@   requires muxOK(m)
+//@   modifies all
+//@   ghost entry :: set tvn = 0
+//@   ghost entry :: set walk0 = nextRef()
 //@   ensures WF() && isnode == old(isnode) && nr == old(nr) && nlit == old(nlit) && pendm == old(pendm) && unchanged("res.Mux.root", "res.Mux.path", "res.Mux.parent", "res.Mux.mountp", "res.node.mounted") && nextRef() >= old(nextRef())
+//@ pred nohandler(x ref) = asptr(x, "*res.node").hs == nil && ref(asptr(x, "*res.node").listeners) != 0
+//@ func Mux.ValidateListeners$1(n *node, path []string, mountIdx int)
+//@   requires WF() && pendm == 0 && tvn >= 0 && walkOK(n, path, mountIdx) && m != nil
+//@   modifies all
+//@   ghost entry :: use open(n)
+//@   ghost entry :: set tvnode = store(tvnode, tvn, ref(n))
+//@   ghost entry :: set tvn = tvn + 1
+//@   ensures logged: tvn == old(tvn) + 1 && tvnode == store(old(tvnode), old(tvn), ref(n))
+//@   ensures kept: WF() && muxSame() && treeSame() && svcSame()
+//@   # errs is non-empty exactly when a node with listeners and without a handler has been reported
+//@   preserves found: (ref(errs) != 0) == exists(k, 0, tvn, nohandler(tvnode[k]))
+//@   preserves young: ref(errs) == 0 || ref(errs) >= walk0
+//@ func (m *Mux) ValidateListeners() (err error)
+//@   requires muxOK(m)
+//@   modifies all
+//@   ghost entry :: set tvn = 0
+//@   ghost entry :: set walk0 = nextRef()
+//@   # the walk starts at the root and (contract of traverse) reports every node below it; an error is returned exactly
+//@   # when one of the reported nodes has listeners and no handler
+//@   ensures kept: muxOK(m) && muxSame() && treeSame() && unchanged("res.Service.inChannelSize", "res.Service.workerCount", "res.Service.resetResources", "res.Service.resetAccess", "res.Service.Mux", "res.Service.nc", "res.Service.logger") && chclosed == old(chclosed) && strelemsbelow(old(nextRef()))
+//@   ensures covers: tvn > 0 && tvnode[0] == ref(m.root)
+//@   ensures verdict: isNil(err) == forall(k, 0, tvn, !nohandler(tvnode[k]))
 //@ func (m *Mux) Mount(path string, sub *Mux)
 //@   requires muxOK(m) && nlit[ref(m.root)] && 0 < ref(m.root) && ref(m.root) < nextRef()
 //@   requires submux: sub != nil && sub != m && sub.root != nil && sub.root != m.root && isnode[ref(sub.root)] && 0 < ref(sub.root) && ref(sub.root) < nextRef() && nr[ref(sub.root)] == 0 && nlit[ref(sub.root)] && len(sub.root.params) == 0
@@ -1429,10 +1488,6 @@ package res
 //@ # serve (re)initialises the worker state before any worker exists: the monitor invariant must hold in that state,
 //@ # with no live work item (the ghost state of the monitor is reset). `thread init`: no other thread uses the monitor
 //@ # while serve initialises it (assumed: Serve only runs from the stopped state, after Shutdown has waited for the workers).
-//@ func (m *Mux) ValidateListeners() (err error)
-//@   nobody
-//@   requires m != nil
-//@   modifies alloc
 //@ # NATS delivers non-nil messages on the request channel
 //@ trusted func builtin.recvRequest(c chan *nats.Msg) (m *nats.Msg, ok bool)
 //@   ensures imp(ok, m != nil)
